@@ -191,6 +191,11 @@ def semantic_check(case, r: Result, allow_index_error=False, total=False):
     if not isinstance(out, ast.AST):
         r.fail(f"simplify_chained_calls returned {out!r}")
         return tree, None, expect
+    try:
+        ast.dump(out)  # a tree that contains itself (or a non-node) cannot even be walked
+    except (RecursionError, Exception) as e:
+        r.fail(f"simplify_chained_calls returned a malformed tree ({type(e).__name__} while walking it; a node reachable from itself?); input {case['src']}")
+        return tree, None, expect
     return tree, out, expect
 
 
